@@ -601,39 +601,74 @@ def solve (p : Prob Rat) : Solved := if isMip p then solveMip p else solveCont p
 
 /-! ## From the shared `LinModel` -/
 
-def extLo : Ext Rat → Except String (Option Rat)
+section OfLinModel
+variable {K : Type}
+
+def extLo : Ext K → Except String (Option K)
   | .ninf => .ok none
   | .fin v => .ok (some v)
   | _ => .error "bad-lower-bound"
-def extHi : Ext Rat → Except String (Option Rat)
+def extHi : Ext K → Except String (Option K)
   | .pinf => .ok none
   | .fin v => .ok (some v)
   | _ => .error "bad-upper-bound"
-def extFin : Ext Rat → Except String Rat
+def extFin : Ext K → Except String K
   | .fin v => .ok v
   | _ => .error "non-finite-coefficient"
 
 def listM {ε α β : Type} (f : α → Except ε β) : List α → Except ε (List β)
   | [] => .ok []
-  | x :: xs => do let y ← f x; let ys ← listM f xs; pure (y :: ys)
+  | x :: xs =>
+    match f x with
+    | .error e => .error e
+    | .ok y =>
+      match listM f xs with
+      | .error e => .error e
+      | .ok ys => .ok (y :: ys)
 
-def ofLinModel (lm : LinModel (Ext Rat)) : Except String (Prob Rat) := do
-  let doms ← listM (fun v =>
-    match lm.domain.find? (·.name == v) with
-    | none => .error "variable-without-domain"
-    | some d =>
-      match d.ty with
-      | .bool => pure Dom.bool
-      | .int a b => pure (Dom.int a b)
-      | .real a b | .nnreal a b => do pure (Dom.cont (← extLo a) (← extHi b))) lm.vars
-  let rows ← listM (fun (r : LinRow (Ext Rat)) => do
-    let rel ← match r.cmp with
-      | .le => pure Rel.le | .ge => pure Rel.ge | .eq => pure Rel.eq
-      | _ => .error "strict-row"
-    if r.coeffs.length != lm.vars.length then throw "row-length"
-    pure ({ coeffs := ← listM extFin r.coeffs, rel := rel, rhs := ← extFin r.rhs } : Row Rat)) lm.rows
-  if lm.objective.length != lm.vars.length then throw "objective-length"
-  pure { sense := lm.optType, obj := ← listM extFin lm.objective, offset := ← extFin lm.offset, rows := rows, doms := doms }
+/-- the domain a `VariableType` denotes (`Real` / `NonNegativeReal` carry their bounds; a NaN or wrong-signed infinite
+bound has no denotation). -/
+def tyDom : VarType (Ext K) → Except String (Dom K)
+  | .bool => .ok .bool
+  | .int a b => .ok (.int a b)
+  | .real a b | .nnreal a b =>
+    match extLo a, extHi b with
+    | .ok lo, .ok hi => .ok (.cont lo hi)
+    | .error e, _ => .error e
+    | _, .error e => .error e
+
+def domOf (lm : LinModel (Ext K)) (v : String) : Except String (Dom K) :=
+  match lm.domain.find? (·.name == v) with
+  | none => .error "variable-without-domain"
+  | some d => tyDom d.ty
+
+def relOf : Cmp → Except String Rel
+  | .le => .ok .le
+  | .ge => .ok .ge
+  | .eq => .ok .eq
+  | _ => .error "strict-row"
+
+def rowOf (nvars : Nat) (r : LinRow (Ext K)) : Except String (Row K) :=
+  match relOf r.cmp, listM extFin r.coeffs, extFin r.rhs with
+  | .ok rel, .ok cs, .ok rhs =>
+    if r.coeffs.length != nvars then .error "row-length" else .ok { coeffs := cs, rel := rel, rhs := rhs }
+  | .error e, _, _ => .error e
+  | _, .error e, _ => .error e
+  | _, _, .error e => .error e
+
+/-- the mixed-integer problem a `LinearModel` denotes (appendix A); an error where it denotes none (missing domain,
+strict row, non-finite data, shape mismatch). -/
+def ofLinModel (lm : LinModel (Ext K)) : Except String (Prob K) :=
+  match listM (domOf lm) lm.vars, listM (rowOf lm.vars.length) lm.rows, listM extFin lm.objective, extFin lm.offset with
+  | .ok doms, .ok rows, .ok obj, .ok off =>
+    if lm.objective.length != lm.vars.length then .error "objective-length"
+    else .ok { sense := lm.optType, obj := obj, offset := off, rows := rows, doms := doms }
+  | .error e, _, _, _ => .error e
+  | _, .error e, _, _ => .error e
+  | _, _, .error e, _ => .error e
+  | _, _, _, .error e => .error e
+
+end OfLinModel
 
 end Cert
 end Rooc
